@@ -343,6 +343,23 @@ func (in *Instance) OSM(onWayNodes, withOrient bool) *osm.OSM {
 
 // OSMPre is OSM with Member.Orientation = pre[piece] (0: member not annotated; nil: none is).
 func (in *Instance) OSMPre(onWayNodes bool, pre []orb.Orientation) *osm.OSM {
+	if onWayNodes {
+		return in.OSMForm("W", pre)
+	}
+	return in.OSMForm("N", pre)
+}
+
+// OSMForm renders the instance with the coordinates supplied in one of these forms:
+//
+//	N   node objects; way nodes carry refs only
+//	W   way nodes carry ref and location; no node objects
+//	Z   way nodes carry the location only (ref 0, as in <nd lat lon/>); no node objects
+//	M   no way objects: every way member embeds its path (Member.Nodes with ref and location)
+//	MZ  as M, the embedded nodes without refs (what Overpass "out geom" writes)
+func (in *Instance) OSMForm(form string, pre []orb.Orientation) *osm.OSM {
+	onWayNodes := form != "N"
+	noRef := form == "Z" || form == "MZ"
+	embed := form == "M" || form == "MZ"
 	o := &osm.OSM{}
 	if !onWayNodes {
 		for _, vi := range in.NodeOrder {
@@ -353,11 +370,31 @@ func (in *Instance) OSMPre(onWayNodes bool, pre []orb.Orientation) *osm.OSM {
 	if in.Label {
 		o.Nodes = append(o.Nodes, in.labelNode())
 	}
-	for _, pi := range in.WayOrder {
-		o.Ways = append(o.Ways, in.way(&in.Pieces[pi], onWayNodes))
+	strip := func(w *osm.Way) *osm.Way {
+		if noRef {
+			for i := range w.Nodes {
+				w.Nodes[i].ID = 0
+			}
+		}
+		return w
 	}
 	rel := in.relation(false)
 	rel.Members = in.membersPre(pre)
+	if embed {
+		byID := map[int64]*Piece{}
+		for i := range in.Pieces {
+			byID[int64(in.Pieces[i].ID)] = &in.Pieces[i]
+		}
+		for i := range rel.Members {
+			if rel.Members[i].Type == osm.TypeWay {
+				rel.Members[i].Nodes = strip(in.way(byID[rel.Members[i].Ref], true)).Nodes
+			}
+		}
+	} else {
+		for _, pi := range in.WayOrder {
+			o.Ways = append(o.Ways, strip(in.way(&in.Pieces[pi], onWayNodes)))
+		}
+	}
 	o.Relations = osm.Relations{rel}
 	return o
 }
